@@ -462,3 +462,192 @@ Theorem C02_groups_remove_genes_effect : forall l rr s, Inv s ->
 Proof. exact remove_genes_effect. Qed.
 Print Assumptions C02_groups_remove_genes_effect.
 End GroupsKernel.
+
+(* ====================================================================================================
+   Kernel IV: user constraints and variables, switching the solver interface, Model.merge
+   (coq/theories/Extras; correspondence: harness/extras.py run, Extras/Check.v codes 1, 3, 7).
+   Each edit does what it documents (effect / frame theorems) and the cross references of the content stay
+   consistent along every history, in particular after a merge.
+   ==================================================================================================== *)
+From Cobra.Extras Require Model Inv Proofs Effects Ctx Examples.
+Module ExtrasKernel.
+Import Cobra.Extras.Model Cobra.Extras.Inv Cobra.Extras.Proofs Cobra.Extras.Effects Cobra.Extras.Ctx Cobra.Extras.Examples.
+
+(* the cross-reference part of the invariant: the Core kernel's WF *)
+Theorem C02_extras_meaning : forall s, Inv s ->
+  (forall r m, rin s r = true -> sto s r m <> 0 -> min s m = true /\ back s m r = true) /\
+  (forall m r, back s m r = true -> min s m = true /\ rin s r = true /\ sto s r m <> 0).
+Proof.
+  intros s H. split; [apply (I_wf1 s H)|]. intros m r B. pose proof (I_bk s H m r B) as M.
+  split; [exact M|apply (I_wf2 s H m r M B)].
+Qed.
+Print Assumptions C02_extras_meaning.
+
+Theorem C02_extras_step : forall s o, Inv s -> op_ok s o -> Inv (fst (step vfix s o)).
+Proof. exact step_Inv. Qed.
+Print Assumptions C02_extras_step.
+
+Theorem C02_extras_history : forall ops s, Inv s -> ok_run vfix s ops -> Inv (run vfix ops s).
+Proof. exact run_Inv. Qed.
+Print Assumptions C02_extras_history.
+
+(* ---- effect / frame per operation ---- *)
+Theorem C02_extras_add_user_var_effect : forall k lb ub s,
+  let s' := add_user_var k (lb, ub) s in
+  vin s' (VU k) = true /\ vb s' (VU k) = (lb, ub) /\ uv s' k = Some (lb, ub) /\
+  (forall v, v <> VU k -> vin s' v = vin s v /\ vb s' v = vb s v) /\
+  (forall k', k' <> k -> uv s' k' = uv s k') /\
+  oc s' = oc s /\ cin s' = cin s /\ cb s' = cb s /\ co s' = co s /\ odir s' = odir s /\ exact s' = exact s /\
+  rin s' = rin s /\ rb s' = rb s /\ sto s' = sto s /\ min s' = min s /\ back s' = back s /\
+  uc s' = uc s /\ uct s' = uct s.
+Proof. exact add_user_var_effect. Qed.
+Print Assumptions C02_extras_add_user_var_effect.
+
+Theorem C02_extras_add_user_cons_effect : forall k lb ub t s,
+  let s' := add_user_cons k (lb, ub) t s in
+  cin s' (CU k) = true /\ cb s' (CU k) = (lb, ub) /\ (forall v, co s' (CU k) v = tfun t v) /\
+  uc s' k = Some (lb, ub) /\ (forall v, uct s' k v = tfun t v) /\
+  (forall c, c <> CU k -> cin s' c = cin s c /\ cb s' c = cb s c /\ forall v, co s' c v = co s c v) /\
+  (forall k', k' <> k -> uc s' k' = uc s k' /\ forall v, uct s' k' v = uct s k' v) /\
+  vin s' = vin s /\ vb s' = vb s /\ oc s' = oc s /\ odir s' = odir s /\ exact s' = exact s /\
+  rin s' = rin s /\ rb s' = rb s /\ sto s' = sto s /\ min s' = min s /\ back s' = back s /\ uv s' = uv s.
+Proof. exact add_user_cons_effect. Qed.
+Print Assumptions C02_extras_add_user_cons_effect.
+
+Theorem C02_extras_remove_user_var_effect : forall k s,
+  let s' := remove_user_var k s in
+  vin s' (VU k) = false /\ vb s' (VU k) = free /\ oc s' (VU k) = 0 /\ uv s' k = None /\
+  (forall c, co s' c (VU k) = 0) /\ (forall k', uct s' k' (VU k) = 0) /\
+  (forall v, v <> VU k -> vin s' v = vin s v /\ vb s' v = vb s v /\ oc s' v = oc s v /\
+                          (forall c, co s' c v = co s c v) /\ (forall k', uct s' k' v = uct s k' v)) /\
+  (forall k', k' <> k -> uv s' k' = uv s k') /\
+  cin s' = cin s /\ cb s' = cb s /\ odir s' = odir s /\ exact s' = exact s /\
+  rin s' = rin s /\ rb s' = rb s /\ sto s' = sto s /\ min s' = min s /\ back s' = back s /\ uc s' = uc s.
+Proof. exact remove_user_var_effect. Qed.
+Print Assumptions C02_extras_remove_user_var_effect.
+
+Theorem C02_extras_remove_user_cons_effect : forall k s,
+  let s' := remove_user_cons k s in
+  cin s' (CU k) = false /\ cb s' (CU k) = free /\ (forall v, co s' (CU k) v = 0) /\
+  uc s' k = None /\ (forall v, uct s' k v = 0) /\
+  (forall c, c <> CU k -> cin s' c = cin s c /\ cb s' c = cb s c /\ forall v, co s' c v = co s c v) /\
+  (forall k', k' <> k -> uc s' k' = uc s k' /\ forall v, uct s' k' v = uct s k' v) /\
+  vin s' = vin s /\ vb s' = vb s /\ oc s' = oc s /\ odir s' = odir s /\ exact s' = exact s /\
+  rin s' = rin s /\ rb s' = rb s /\ sto s' = sto s /\ min s' = min s /\ back s' = back s /\ uv s' = uv s.
+Proof. exact remove_user_cons_effect. Qed.
+Print Assumptions C02_extras_remove_user_cons_effect.
+
+(* removal by name: LookupError and no change when there is no such item, otherwise the removal by object *)
+Theorem C02_extras_remove_by_name_effect : forall k s,
+  (vin s (VU k) = false -> step vfix s (RemoveVarByName k) = (s, RaiseLookupError)) /\
+  (cin s (CU k) = false -> step vfix s (RemoveConsByName k) = (s, RaiseLookupError)) /\
+  (vin s (VU k) = true -> step vfix s (RemoveVarByName k) = step vfix s (RemoveUserVar k)) /\
+  (cin s (CU k) = true -> step vfix s (RemoveConsByName k) = step vfix s (RemoveUserCons k)).
+Proof.
+  intros k s. destruct (remove_by_name_absent k s) as [A B]. destruct (remove_by_name_present k s) as [C D].
+  repeat split; assumption.
+Qed.
+Print Assumptions C02_extras_remove_by_name_effect.
+
+Theorem C02_extras_add_reactions_existing : forall r b l s, rin s r = true -> add_rxn r b l s = s.
+Proof. exact add_rxn_existing. Qed.
+Print Assumptions C02_extras_add_reactions_existing.
+
+Theorem C02_extras_remove_reactions_absent : forall r s, rin s r = false -> remove_rxn r s = s.
+Proof. exact remove_rxn_absent. Qed.
+Print Assumptions C02_extras_remove_reactions_absent.
+
+(* Model.add_reactions for a new identifier: the reaction with its variables, bounds and rows; the user items, the
+   objective and the other reactions untouched *)
+Theorem C02_extras_add_reactions_effect : forall r b l s, Inv s -> rin s r = false -> sto_okb l = true ->
+  let s' := add_rxn r b l s in
+  (* the reaction *)
+  rin s' r = true /\ rb s' r = b /\ (forall m, sto s' r m = assz l m) /\
+  vin s' (VF r) = true /\ vin s' (VR r) = true /\ vb s' (VF r) = fst (split b) /\ vb s' (VR r) = snd (split b) /\
+  (forall m, co s' (CM m) (VF r) = assz l m /\ co s' (CM m) (VR r) = - assz l m) /\
+  (forall m, min s' m = min s m || memz m (map fst l)) /\
+  (forall m, back s' m r = memz m (map fst l)) /\
+  (* the user items *)
+  uv s' = uv s /\ uc s' = uc s /\ uct s' = uct s /\
+  (forall k, vin s' (VU k) = vin s (VU k) /\ vb s' (VU k) = vb s (VU k)) /\
+  (forall k, cin s' (CU k) = cin s (CU k) /\ cb s' (CU k) = cb s (CU k) /\ forall v, co s' (CU k) v = co s (CU k) v) /\
+  (* the other reactions, the metabolites that were there *)
+  (forall r', r' <> r -> rin s' r' = rin s r' /\ rb s' r' = rb s r' /\ (forall m, sto s' r' m = sto s r' m) /\
+     vin s' (VF r') = vin s (VF r') /\ vin s' (VR r') = vin s (VR r') /\
+     vb s' (VF r') = vb s (VF r') /\ vb s' (VR r') = vb s (VR r') /\
+     (forall m, back s' m r' = back s m r') /\
+     (forall m, co s' (CM m) (VF r') = co s (CM m) (VF r') /\ co s' (CM m) (VR r') = co s (CM m) (VR r'))) /\
+  (forall m k, co s' (CM m) (VU k) = co s (CM m) (VU k)) /\
+  (forall m, min s m = true -> cb s' (CM m) = cb s (CM m)) /\
+  oc s' = oc s /\ odir s' = odir s /\ exact s' = exact s.
+Proof. exact add_rxn_effect. Qed.
+Print Assumptions C02_extras_add_reactions_effect.
+Theorem C02_extras_set_bounds_effect : forall r lb ub s,
+  (ub < lb -> set_bounds r lb ub s = (s, RaiseValueError)) /\
+  (lb <= ub ->
+   let s' := fst (set_bounds r lb ub s) in
+   snd (set_bounds r lb ub s) = Ok /\ rb s' r = (lb, ub) /\
+   (rin s r = true -> vb s' (VF r) = fst (split (lb, ub)) /\ vb s' (VR r) = snd (split (lb, ub))) /\
+   (rin s r = false -> vb s' = vb s) /\
+   (forall r', r' <> r -> rb s' r' = rb s r') /\
+   (forall v, v <> VF r -> v <> VR r -> vb s' v = vb s v) /\
+   rin s' = rin s /\ sto s' = sto s /\ min s' = min s /\ back s' = back s /\ vin s' = vin s /\ oc s' = oc s /\
+   cin s' = cin s /\ cb s' = cb s /\ co s' = co s /\ odir s' = odir s /\ exact s' = exact s /\
+   uv s' = uv s /\ uc s' = uc s /\ uct s' = uct s).
+Proof. exact set_bounds_effect. Qed.
+Print Assumptions C02_extras_set_bounds_effect.
+Theorem C02_extras_set_objective_effect : forall l s, nodupb (map fst l) = true ->
+  let s' := set_obj l s in
+  (forall r, oc s' (VF r) = assz l r /\ oc s' (VR r) = - assz l r) /\ (forall k, oc s' (VU k) = 0) /\
+  odir s' = odir s /\ rin s' = rin s /\ rb s' = rb s /\ sto s' = sto s /\ min s' = min s /\ back s' = back s /\
+  vin s' = vin s /\ vb s' = vb s /\ cin s' = cin s /\ cb s' = cb s /\ co s' = co s /\ exact s' = exact s /\
+  uv s' = uv s /\ uc s' = uc s /\ uct s' = uct s.
+Proof. exact set_obj_effect. Qed.
+Print Assumptions C02_extras_set_objective_effect.
+
+(* merge (repaired): reactions of right join under their identifier, or the prefixed one where the identifier exists; a
+   reaction of the left model keeps bounds and stoichiometry; metabolites only join; a user item of the left model is
+   unchanged, one of right joins iff its name is new, exactly as it was in right; the objective as documented per mode;
+   the interface stays *)
+Theorem C02_extras_merge_effect : forall rm pfx mode s, Inv s -> rm_okb s rm pfx = true ->
+  snd (merge_result vfix rm pfx mode s) = Ok ->
+  let s' := fst (merge_result vfix rm pfx mode s) in
+  (forall r, rin s' r = rin s r || memz r (map (new_id s pfx) (rm_rxns rm))) /\
+  (forall r, rin s r = true -> rb s' r = rb s r /\ forall m, sto s' r m = sto s r m) /\
+  (forall m, min s m = true -> min s' m = true) /\
+  (forall k, uv s' k = match uv s k with Some b => Some b | None => lookup k (rm_uvars rm) end) /\
+  (forall k, uc s' k = match uc s k with Some b => Some b | None => option_map fst (lookc k (rm_ucons rm)) end) /\
+  (forall k v, uct s' k v = match uc s k with
+                            | Some _ => uct s k v
+                            | None => match lookc k (rm_ucons rm) with Some bt => tfun (snd bt) v | None => 0 end
+                            end) /\
+  (mode <> 1 -> mode <> 2 -> odir s' = odir s /\ forall n, oc s' n = oc s n) /\
+  (mode = 1 -> odir s' = rm_dir rm /\ forall n, oc s' n = obj_of (rm_obj rm) (fun _ => 0) n) /\
+  (mode = 2 -> odir s' = odir s /\ forall n, oc s' n = oc s n + obj_of (rm_obj rm) (fun _ => 0) n) /\
+  exact s' = exact s.
+Proof. exact merge_effect. Qed.
+Print Assumptions C02_extras_merge_effect.
+
+(* inplace=False: "leaving the left model untouched" *)
+Theorem C02_extras_merge_not_inplace : forall v s rm pfx mode, fst (step v s (Merge rm pfx mode false)) = s.
+Proof. exact merge_not_inplace. Qed.
+Print Assumptions C02_extras_merge_not_inplace.
+
+(* the code as found: an ignored copy stays registered with a metabolite that joins -- the cross references break
+   (= the finding C02-merge-stale-back-reference); objective="sum" ends with direction "max" whatever it was
+   (= C02-merge-sum-direction; compare `C02_extras_merge_effect`, mode 2) *)
+Theorem C02_extras_merge_stale_back_refuted : exists s rm, Inv s /\ rm_okb s rm false = true /\
+  ~ Inv (fst (merge_result (mkV false true true) rm false 0 s)).
+Proof. exact merge_stale_back_refuted. Qed.
+Print Assumptions C02_extras_merge_stale_back_refuted.
+
+Theorem C02_extras_merge_sumdir_as_found : forall b1 b2 rm s, odir (merge_objective (mkV b1 b2 false) rm 2 s) = true.
+Proof. exact merge_sumdir_as_found. Qed.
+Print Assumptions C02_extras_merge_sumdir_as_found.
+
+Example C02_extras_history_nonvacuous : ok_run vfix (init false) ops /\
+  rin (run vfix ops (init false)) 1002 = true /\ back (run vfix ops (init false)) 6 1002 = true /\
+  uv (run vfix ops (init false)) 7 = Some (Some 0, Some 4) /\ uc (run vfix ops (init false)) 11 = Some (Some 0, None).
+Proof. split; [exact history_nonvacuous|]. vm_compute. repeat split. Qed.
+Print Assumptions C02_extras_history_nonvacuous.
+End ExtrasKernel.
